@@ -163,7 +163,14 @@ def run_op(gen, st, op, etype, exprs):
     from src.ir import ast
     void = gen.bt_factory.get_void_type()
     out = None
-    if op == "matching_func":
+    sab = st.case.get("sabotage")
+    if op == "matching_func" and sab == "helper-at-top-level":
+        # negative control: the helper is declared at top level whatever its type mentions
+        ns = gen.namespace
+        gen.namespace = ast.GLOBAL_NAMESPACE
+        gen.gen_func_decl(etype, not_void=True)
+        gen.namespace = ns
+    elif op == "matching_func":
         out = gen._gen_matching_func(etype, not_void=True)
         st.tally["helper:" + ("func" if out is not None and out.receiver_t is None else "class")] += 1
     elif op == "matching_class_fun":
@@ -231,6 +238,8 @@ def run_op(gen, st, op, etype, exprs):
         exprs.extend(es)
     else:
         raise ValueError(op)
+    if sab == "flag-dropped-after-lambda" and op in ("lambda", "lambda_free"):
+        gen._inside_java_lambda = False      # negative control: the flag is not restored
 
 
 def run_script(gen, st, tv):
